@@ -89,6 +89,14 @@ def _resume(case, tr0, acc):
         elif style == "dup":
             ext.append({"at": t0, "type": "Answer", "pay": {"key": w["v"]}})
             ext.append({"at": t0, "type": "Answer", "pay": {"key": w["v"]}})
+    if (case["spec"].get("meta") or {}).get("opaque_req"):
+        # mixed JSON / opaque requirements: a forged answer (right key, wrong token) precedes every genuine one
+        ext2 = []
+        for x in ext:
+            ext2.append({**x, "pay": {**x["pay"], "tok": {"$uuid": 8}}})
+            ext2.append({**x, "at": x["at"] + 0.25, "pay": {**x["pay"], "tok": {"$uuid": 7}}})
+        ext = ext2
+        acc.hit("resumed_with_opaque_requirement")
     spec2["externals"] = ext
     spec2["uid_base"] = 1000  # fresh ids must not collide with ids stored in the snapshot
     case2 = {"seed": case["seed"], "family": "wait", "spec": spec2, "snap": snap, "k": k}
